@@ -48,9 +48,14 @@ structure IsRSDS (b : Bytes) (off len pathLen : Nat) : Prop where
   fits : 24 ≤ len
   path : IsCStr b (off + 24) (len - 24) pathLen
 
+/-! fields of the two records, by the documented layouts (all dwords little endian):
+NB10: +0 "NB10", +4 Offset, +8 TimeDateStamp, +12 Age, +16 path; RSDS: +0 "RSDS", +4 GUID (16 bytes), +20 Age, +24 path -/
+def nb10Offset (b : Bytes) (off : Nat) : Nat := le32 b (off + 4)
 def nb10TimeDateStamp (b : Bytes) (off : Nat) : Nat := le32 b (off + 8)
 def nb10Age (b : Bytes) (off : Nat) : Nat := le32 b (off + 12)
-def rsdsGuid (off : Nat) : Ref := ⟨off + 4, 16, 1⟩
+/-- the GUID of an RSDS record at `off`: the 16 bytes at +4 (a `GUID { u32, u16, u16, [u8; 8] }`, dword aligned
+whenever the record is) -/
+def rsdsGuid (off : Nat) : Ref := ⟨off + 4, 16, 4⟩
 def rsdsAge (b : Bytes) (off : Nat) : Nat := le32 b (off + 20)
 
 /-- POGO records laid out back to back from `off` to `stop`: rva, size, NUL-terminated name padded to a
